@@ -115,6 +115,11 @@ def run(ctx):
         ws = [w for w in all_writes(ctx, f) if self_field(w) == fld and w["how"] == "store" and len(w["path"]) == 1]
         n_alloc += 1
         okc = len(ws) == 1 and ws[0]["value"] is not None and pred(ws[0]["value"])
+        if not ws:
+            from .common import elementwise_reset
+            if elementwise_reset(ctx, f, fld) or any(w.get("name") == "clear" and self_field(w) == fld for w in all_writes(ctx, f)):
+                ctx.ok("R11-alloc-terms", "%s:%s" % (key, fld), "clear resets `%s` in place (no re-allocation)" % fld)
+                continue
         ctx.check(okc, "R11-alloc-terms", "%s:%s" % (key, fld), f, "clear re-allocates `%s` with its own size (%s)" % (fld, fmt(ws[0]["value"]) if ws else "?"),
                   "clear() re-allocates `%s` as %s — not the size it was constructed with" % (fld, fmt(ws[0]["value"]) if ws else "<no store>"))
     ctx.floor("R11-alloc-terms", n_alloc, 12, "allocation sites of state fields")
@@ -158,6 +163,9 @@ def run(ctx):
                           "growth of `%s` is bounded on all %d paths: %s" % (fld, len(vs), ", ".join(kinds)),
                           "`%s.%s(..)` in %s can grow the structure with the stream: %s" % (fld, e.get("name"), m.name, bad[0][0][1] if bad else ""))
     ctx.floor("R11-growth-census", n_growth, 5, "growth sites on container fields")
+    # TDigest: the centroid bound is a function of the scale function's n = number of samples, which must be counted +1 per insert
+    from .C16 import insert_rules
+    insert_rules(ctx)
     # CMSHeap: `paired with a removal` bounds the heap only if the removal hits the entry it is meant to replace:
     # that is C10's paired-update rule (same key, counter stepped by exactly one, re-keyed n-1 -> n)
     ha = ctx.anchor("topk::cmsheap::CMSHeap::add")
